@@ -6,7 +6,7 @@
    k concurrent sessions/codec loops, the second is checked by a footprint scan of the package's source on every run. *)
 From Coq Require Import List NArith ZArith Bool.
 Import ListNotations.
-Require Import Client ClientLevel.
+Require Import Client ClientLevel Codec Frame Reader Wire Interleave.
 
 (* one call: whatever level the logger has, the call returns the same result and the same client state, and leaves a
    world that differs at most in level and log records - for every environment *)
@@ -14,6 +14,26 @@ Definition C17_level_irrelevant := @ClientLevel.call_level_irrelevant.
 (* k clients whose calls are interleaved in ANY order, each call starting at whatever level the previous call of any
    client left: client i ends in the state, with the results and (up to log records) the world of running alone *)
 Definition C17_interleave := @ClientLevel.C17_interleave.
+(* codec calls (rscp.Write / rscp.Read) of k callers, each on its own key schedule, cipher chains and reader buffer,
+   interleaved in ANY order: caller i ends in the state and with exactly the outputs (ciphertexts, verdicts with their
+   message trees) of running alone; a caller that makes no call keeps its state *)
+Theorem C17_codec_interleave : forall sched (f : states codec_state) i,
+  let '(f', rs) := run_merged _ _ _ codec_step sched f in
+  let '(s1, rs1) := run_alone _ _ _ codec_step i sched (f i) in
+  f' i = s1 /\ outs_of _ i rs = rs1.
+Proof. exact Interleave.codec_interleave. Qed.
+Theorem C17_codec_untouched : forall sched (f : states codec_state) i,
+  (forall o, ~ In (i, o) sched) -> fst (run_merged _ _ _ codec_step sched f) i = f i.
+Proof. exact (Interleave.untouched codec_state codec_op codec_out codec_step). Qed.
+(* non-vacuity: two callers with different keys, writes and reads interleaved; the second caller's ciphertext is what it
+   produces alone *)
+Example C17_nonvacuous :
+  let s0 k := {| cs_ks := Rijndael.key_schedule (Cipher.key_pad [k]); cs_enc := Cipher.iv0; cs_dec := Cipher.iv0; cs_rst := rinit |} in
+  let sched := [(0%nat, OWrite true 1%Z 2%Z [Msg 17 0 GNil]); (1%nat, OWrite false 3%Z 4%Z [Msg 18 0 GNil]); (0%nat, ORead (repeat 0%N 32))] in
+  outs_of _ 1%nat (snd (run_merged _ _ _ codec_step sched (fun i => s0 (N.of_nat i)))) =
+  snd (run_alone _ _ _ codec_step 1%nat sched (s0 1%N)) /\ length (outs_of _ 1%nat (snd (run_merged _ _ _ codec_step sched (fun i => s0 (N.of_nat i))))) = 1%nat.
+Proof. vm_compute. split; reflexivity. Qed.
 Check C17_level_irrelevant.
 Check C17_interleave.
 Print Assumptions C17_level_irrelevant. Print Assumptions C17_interleave.
+Print Assumptions C17_codec_interleave. Print Assumptions C17_codec_untouched.
